@@ -2308,6 +2308,18 @@ class Walker:
             if fn in (("mod", "numpy.asarray"), ("mod", "numpy.asanyarray"), ("mod", "numpy.float64")) and (
                     not kwargs or kwargs == (("dtype", ("mod", "numpy.float64")),) or kwargs == (("dtype", ("builtin", "float")),)):
                 return args[0]
+        # x.item() of an element of a numpy buffer built in this walk, or of arithmetic on such: the same number as a
+        # Python scalar
+        if fn[0] == "attr" and fn[2] == "item" and not args and not kwargs:
+            r = fn[1]
+            numeric = r[0] in ("bin", "max", "min") or (r[0] == "idx" and root_object(r)[0] == "alloc"
+                                                        and str(root_object(r)[1]).startswith("numpy."))
+            if numeric:
+                return r
+        # np.float64(0.0) is 0.0
+        if fn in (("mod", "numpy.float64"), ("mod", "numpy.double")) and len(args) == 1 and not kwargs and args[0][0] == "const" \
+                and isinstance(args[0][1], (int, float)) and not isinstance(args[0][1], bool):
+            return ("const", float(args[0][1]))
         # np.fromiter(<generator>, dtype=np.float64[, count=...]) holds the generated values (as float64: costs, distances
         # and densities are floats already; a narrower dtype is not the same table)
         if fn == ("mod", "numpy.fromiter") and len(args) == 1 and args[0][0] == "listcomp" \
